@@ -180,6 +180,24 @@ theorem parentsOK_detachAt {h : Heap} (p j : Nat) (H : ParentsOK h) : ParentsOK 
         split <;> exact ⟨h1, h2, h3⟩
     · exact H
 
+theorem parentsOK_clearParent {h : Heap} (e : Nat) (H : ParentsOK h) :
+    ParentsOK (upd h e fun r => { r with parent := none }) := by
+  intro c p hc
+  simp only [upd] at hc ⊢
+  by_cases hce : c = e
+  · simp [hce] at hc
+  · simp only [if_neg hce] at hc
+    have := H c p hc
+    split <;> exact this
+
+theorem parentsOK_detachNode {h : Heap} (p e : Nat) (H : ParentsOK h) : ParentsOK (detachNode h p e) := by
+  unfold detachNode
+  split
+  · split
+    · exact parentsOK_detachAt _ _ (parentsOK_clearParent e H)
+    · exact H
+  · exact H
+
 theorem parentsOK_clearKids {h : Heap} (p : Nat) (H : ParentsOK h) : ParentsOK (clearKids h p) := by
   unfold clearKids
   split
@@ -200,6 +218,11 @@ theorem parentsOK_step {h : Heap} (o : Op) (H : ParentsOK h) : ParentsOK (step h
     · split
       · exact H
       · exact parentsOK_detachAt _ _ H
+    · exact H
+  | removeE v w =>
+    simp only [step]
+    split
+    · exact parentsOK_detachNode _ _ H
     · exact H
   | clear v =>
     simp only [step]
@@ -348,6 +371,14 @@ theorem deadOK_detachAt {h : Heap} (p j : Nat) (H : DeadOK h) : DeadOK (detachAt
       · exact deadOK_upd_parent (fun r => ⟨rfl, rfl, rfl⟩) H
     · exact H
 
+theorem deadOK_detachNode {h : Heap} (p e : Nat) (H : DeadOK h) : DeadOK (detachNode h p e) := by
+  unfold detachNode
+  split
+  · split
+    · exact deadOK_detachAt _ _ (deadOK_upd_parent (fun r => ⟨rfl, rfl, rfl⟩) H)
+    · exact H
+  · exact H
+
 theorem deadOK_clearKids {h : Heap} (p : Nat) (H : DeadOK h) : DeadOK (clearKids h p) := by
   unfold clearKids
   split
@@ -367,6 +398,10 @@ theorem deadOK_step {h : Heap} (o : Op) (H : DeadOK h) : DeadOK (step h o) := by
     · split
       · exact H
       · exact deadOK_detachAt _ _ H
+    · exact H
+  | removeE v w =>
+    simp only [step]; split
+    · exact deadOK_detachNode _ _ H
     · exact H
   | clear v =>
     simp only [step]; split
